@@ -3,12 +3,18 @@ package main
 // C05 — every issue's path addresses the offending location inside the input.
 //
 // The C02 nestings (object, struct, slice, array, tuple, map, record, set, union, intersection, …
-// to depth ≤ 4 quick / ≤ 6 thorough) with PLANTED SINGLE FAULTS: a valid instance is synthesised
-// and checked to be accepted, then one location (at any depth) is replaced by a value its own
-// sub-schema rejects.  Observation:
+// to depth ≤ 4 quick / ≤ 6 thorough, members of every kind incl. pipes / transforms / foreign wrappers)
+// with PLANTED FAULTS: a valid instance is synthesised and checked to be accepted, then
+//   * one location (at any depth) is replaced by a value its own sub-schema rejects (single fault), or
+//   * k = 2,3 locations are, side by side: in sibling members of the top container, in sibling elements of
+//     one member, or inside ONE element of a member (that element then reports ≥ 2 issues whose paths the
+//     parents have to re-prefix one by one).
+// Besides the random nestings, every PARENT kind × CHILD kind is generated over a bottom container with ≥ 2
+// children (depth ≥ 3) and given multi-fault inputs at each of the three levels.  Observation:
 //     ok | err <set of issue paths> r=<every path resolves in the input, or reaches the parent of a
-//     missing key> p=<every path is the planted location, a prefix of it, or a location inside the planted value>
-// r and p are computed here, on the implementation's own output.  The Lean driver evaluates the
+//     missing key> p=<every path is a planted location, a prefix of one, or a location inside a planted value>
+//     c=<every planted location has a reported path at it, above it or inside it>
+// r, p and c are computed here, on the implementation's own output.  The Lean driver evaluates the
 // model of the container code on the members' recorded answers (expected to equal the observation)
 // and the ideal, complete paths (member location ++ member's own path); vlib/c05.py requires the
 // reported paths to be among the ideal ones.
@@ -47,6 +53,39 @@ func isPrefix(a, b []string) bool {
 	return true
 }
 
+// genBottom: a depth-1 container whose instances have ≥ 2 member-checked children.
+func genBottom(r *hx.Rng, kind string) *cx.Sch {
+	var s *cx.Sch
+	for range 40 {
+		s = cx.GenKind(r, 1, kind)
+		for range 4 {
+			if len(s.Children(s.Valid(r))) >= 2 {
+				return s
+			}
+		}
+	}
+	return s
+}
+
+// validWith synthesises an accepted instance, preferring one whose top container has ≥ n children.
+func validWith(r *hx.Rng, s *cx.Sch, n int) (any, bool) {
+	var best any
+	found := false
+	for range 12 {
+		v := s.Valid(r)
+		if ob := cx.Observe(s, v); !ob.OK {
+			continue
+		}
+		if len(s.Children(v)) >= n {
+			return v, true
+		}
+		if !found {
+			best, found = v, true
+		}
+	}
+	return best, found
+}
+
 func run(c hx.Config) error {
 	o, err := hx.NewOut(c.OutDir)
 	if err != nil {
@@ -54,23 +93,27 @@ func run(c hx.Config) error {
 	}
 	r := hx.NewRng(c.Seed)
 	cfg := cx.Probe()
-	perKind, maxDepth := 60, 4
+	perKind, maxDepth := 50, 4
 	if c.Thorough() {
 		perKind, maxDepth = 500, 6
 	}
-	emit := func(s *cx.Sch, in any, loc []any, how string) {
+	emit := func(s *cx.Sch, in any, locs [][]any, how string) {
 		cs := cx.Build(cfg, s, in)
 		if cs.Nondet {
 			o.Count("skipped:member-answers-differ-between-calls")
 			return
 		}
 		fault := "-"
-		var locSegs []string
-		if loc != nil {
-			locSegs, _ = cx.WalkPath(in, loc)
-			fault = strconv.Itoa(len(locSegs))
-			if len(locSegs) > 0 {
-				fault += " " + strings.Join(locSegs, " ")
+		var locSegs [][]string
+		if locs != nil {
+			fault = strconv.Itoa(len(locs))
+			for _, loc := range locs {
+				segs, _ := cx.WalkPath(in, loc)
+				locSegs = append(locSegs, segs)
+				fault += " " + strconv.Itoa(len(segs))
+				if len(segs) > 0 {
+					fault += " " + strings.Join(segs, " ")
+				}
 			}
 		}
 		ob := cx.Observe(s, in)
@@ -84,20 +127,42 @@ func run(c hx.Config) error {
 			impl = "err-not-a-ZodError:" + ob.NonZod
 		default:
 			var ps []string
-			res, pre := true, true
+			res, pre, cov := true, true, true
+			var all [][]string
 			for _, is := range ob.Issues {
 				segs, ok := cx.WalkPath(in, is.Path)
 				ps = append(ps, cx.PathStr(segs))
+				all = append(all, segs)
 				res = res && ok
-				if loc != nil {
-					pre = pre && isPrefix(segs, locSegs)
+				if locs != nil {
+					near := false
+					for _, l := range locSegs {
+						near = near || isPrefix(segs, l)
+					}
+					pre = pre && near
 				}
 			}
-			impl = fmt.Sprintf("err %s r=%s p=%s", cx.PathSet(ps), hx.B01(res), hx.B01(pre))
+			for _, l := range locSegs {
+				hit := false
+				for _, segs := range all {
+					hit = hit || isPrefix(segs, l)
+				}
+				cov = cov && hit
+			}
+			impl = fmt.Sprintf("err %s r=%s p=%s c=%s", cx.PathSet(ps), hx.B01(res), hx.B01(pre), hx.B01(cov))
 		}
 		o.Emit("c05 "+cs.Body+" "+fault+" # "+s.Kind+" "+how+" "+cx.Repro(s, in), impl)
 		o.Count(s.Kind + ":" + how + ":" + strings.SplitN(impl, " ", 2)[0])
 	}
+	multiHow := func(s *cx.Sch, v any, descend, k, depth int, tag string) {
+		nv, locs, ok := s.CorruptBelow(r, v, "", descend, k, depth)
+		if !ok {
+			o.Count(s.Kind + ":no-corruption-available")
+			return
+		}
+		emit(s, nv, locs, fmt.Sprintf("%sfaults=%d@level%d", tag, len(locs), descend))
+	}
+	multi := func(s *cx.Sch, v any, descend, k, depth int) { multiHow(s, v, descend, k, depth, "") }
 	for _, kind := range kinds {
 		for i := range perKind {
 			depth := 1 + i%maxDepth
@@ -109,13 +174,53 @@ func run(c hx.Config) error {
 					continue
 				}
 				emit(s, v, nil, "valid")
-				for range 6 {
+				for range 5 {
 					nv, loc, ok := s.Corrupt(r, v, "", depth)
 					if !ok {
 						o.Count(kind + ":no-corruption-available")
 						continue
 					}
-					emit(s, nv, loc, "fault@"+strconv.Itoa(len(loc)))
+					emit(s, nv, [][]any{loc}, "fault@"+strconv.Itoa(len(loc)))
+				}
+				for j := range 3 {
+					multi(s, v, j%3, 2+r.Intn(2), depth)
+				}
+			}
+		}
+	}
+	// every parent kind × every child kind over a bottom container with ≥ 2 children (depth ≥ 3)
+	rounds := 1
+	if c.Thorough() {
+		rounds = 10
+	}
+	bottoms := []string{"object", "object", "struct", "tuple", "slice", "map", "array", "record"}
+	for range rounds {
+		for _, pk := range kinds {
+			for _, ck := range append(append([]string{}, kinds...), "wrap") {
+				bottom := genBottom(r, hx.Pick(r, bottoms))
+				var child *cx.Sch
+				if ck == "wrap" {
+					child = cx.Wrap(r, bottom, false)
+				} else if child = cx.GenOver(r, 2, ck, bottom); child == nil {
+					child = cx.GenKind(r, 1, ck) // set: its element is a leaf
+				}
+				s := cx.GenOver(r, 3, pk, child)
+				if s == nil {
+					o.Count("chain:" + pk + ">" + ck + ":parent-does-not-take-this-child")
+					continue
+				}
+				for range 2 {
+					v, ok := validWith(r, s, 2)
+					if !ok {
+						o.Count("chain:" + pk + ">" + ck + ":synthesised-instance-not-accepted")
+						continue
+					}
+					emit(s, v, nil, "chain-valid:"+ck)
+					for d := 0; d <= 2; d++ {
+						for k := 2; k <= 3; k++ {
+							multiHow(s, v, d, k, 3, "chain:"+ck+":")
+						}
+					}
 				}
 			}
 		}
